@@ -147,7 +147,10 @@ def strategy():
                                   'text': st.one_of(st.sampled_from(NASTY + ['']), st.lists(st.sampled_from(NASTY), min_size=1, max_size=4).map('\n'.join),
                                                     st.text(max_size=40), st.text(alphabet='{}#/<>&"\'@~:.|zq9 \n', max_size=30))})
     other = st.fixed_dictionaries({'kind': st.sampled_from(['none', 'bytes']), 'text': st.sampled_from(['', 'Traceback (most recent call last):\nValueError: <zq9r>', '<zq9s>', '\xff\xfe'])})
+    import os as _os, werkzeug as _wz, clastic as _cl, json as _js
+    site = [_os.__file__, _wz.__file__, _cl.__file__, _os.path.join(_os.path.dirname(_cl.__file__), 'route.py'), _js.__file__]
     files = st.one_of(st.none(), st.just([]),
+                      st.lists(st.one_of(st.sampled_from(site), st.sampled_from(['/app/main.py', '/srv/<zq9t>.py', 'a.py'])), min_size=1, max_size=5, unique=True),
                       st.lists(st.one_of(st.sampled_from(['/app/main.py', 'a.py', '/srv/<zq9t>.py', '/x/"zq9u".py', "/y/'zq9v'.py", '/é/中.py', '/w/{zq9w}.py',
                                                           '/usr/lib/python3/os.py', '']),
                                          st.text(alphabet='abc/._<>&"{}zq9', min_size=1, max_size=15)), max_size=6),
